@@ -1,20 +1,66 @@
 package simkit
 
 import (
+	"fmt"
 	"os"
+	"runtime"
+	"sync"
 
 	"github.com/pingcap/log"
 	"go.uber.org/zap"
 	"go.uber.org/zap/zapcore"
 )
 
+var (
+	fatalMu sync.Mutex
+	fatals  []string
+)
+
+type fatalHook struct{}
+
+// OnWrite handles a Fatal log of the code under test. The library would have ended the process
+// here, possibly while holding locks, so the run cannot be continued safely: the violation is
+// written out as a replay file of the current run, announced on stderr, and the worker exits with
+// status 4, which the driver understands.
+func (fatalHook) OnWrite(ce *zapcore.CheckedEntry, fields []zapcore.Field) {
+	enc := zapcore.NewMapObjectEncoder()
+	for _, f := range fields {
+		f.AddTo(enc)
+	}
+	msg := fmt.Sprintf("%s %v (at %s)", ce.Message, enc.Fields, ce.Caller.TrimmedPath())
+	fatalMu.Lock()
+	fatals = append(fatals, msg)
+	fatalMu.Unlock()
+	if FatalExit != nil {
+		FatalExit(msg)
+	}
+	runtime.Goexit()
+}
+
+// FatalExit is installed by the runner: it persists the current run and exits the process.
+var FatalExit func(msg string)
+
+// TakeFatals returns and clears the Fatal logs recorded since the last call.
+func TakeFatals() []string {
+	fatalMu.Lock()
+	defer fatalMu.Unlock()
+	out := fatals
+	fatals = nil
+	return out
+}
+
 // QuietLogs replaces the global logger of the code under test: nothing is
-// written unless VERIF_VERBOSE is set (logging must not do I/O or perturb runs).
+// written unless VERIF_VERBOSE is set (logging must not do I/O or perturb runs);
+// a Fatal log does not kill the worker process but is recorded (see TakeFatals).
 func QuietLogs() {
 	if os.Getenv("VERIF_VERBOSE") != "" {
+		l, p, err := log.InitLogger(&log.Config{Level: "info"}, zap.WithFatalHook(fatalHook{}))
+		if err == nil {
+			log.ReplaceGlobals(l, p)
+		}
 		return
 	}
-	lvl := zap.NewAtomicLevelAt(zapcore.FatalLevel + 1)
-	l := zap.New(zapcore.NewNopCore())
+	lvl := zap.NewAtomicLevelAt(zapcore.FatalLevel)
+	l := zap.New(zapcore.NewNopCore(), zap.WithFatalHook(fatalHook{}))
 	log.ReplaceGlobals(l, &log.ZapProperties{Level: lvl})
 }
